@@ -170,7 +170,14 @@ class BuiltinMixin:
         return V(s_.ty, z3.Extract(s_.t, lo2, hi2 - lo2))
 
     def b_getattr(self, args, kw, st, exits, line):
-        raise Unsupported('getattr')
+        # getattr(obj, 'literal', default): the attribute is a declared field (the default is for older Pythons)
+        nm = z3.simplify(args[1].t) if args[1].ty is STR else None
+        if nm is None or not z3.is_string_value(nm) or not isinstance(args[0].ty, TRef):
+            raise Unsupported('getattr with a computed name')
+        fty = self.field_ty(args[0].ty.cls, nm.as_string())
+        if fty is None:
+            raise Unsupported(f'getattr: {args[0].ty.cls}.{nm.as_string()} is not a declared field')
+        return self.read_field(st, args[0], nm.as_string())
 
     def b_sorted(self, args, kw, st, exits, line):
         v = args[0]
